@@ -721,7 +721,8 @@ class World:
         return self.inst[iname]
 
     def crash_inside(self, iname, step, nops):
-        """Run `step`, killing the instance after its nops-th broker operation (publish/ack)."""
+        """Run `step`, killing the instance right after broker operation number nops (0-based) of the frame
+        (publish/ack); nops = -1: right before its first broker operation."""
         b = self.broker
         b.fail_after, b.fail_conn = nops, iname
         crashed = False
